@@ -220,8 +220,22 @@ pub fn run(sc: &Scenario) -> J {
         }
     });
     reg.poll();
+    // `at` may need the server's executor to run before it returns (it may wait for the object server's
+    // dispatch task): give it exactly the task runs it needs, nothing more
+    let mut guard = 0;
+    while !reg.done() {
+        let ran = pair.tick_server();
+        if !ran && !reg.woken() {
+            break;
+        }
+        reg.poll();
+        guard += 1;
+        if guard > 10_000 {
+            break;
+        }
+    }
     if !matches!(reg.out, Some(Ok(Ok(true)))) {
-        // registration must return without suspending in this setting; anything else is a harness problem
+        // the registration of a fresh interface must succeed; anything else is a harness problem
         panic!("registration did not complete: {:?}", reg.out.as_ref().map(|r| r.as_ref().map(|x| x.is_ok())));
     }
     ev("Create", 0);
